@@ -10,7 +10,7 @@ from mirsym.values import *        # noqa
 from mirsym.models import deref, drain
 from mirsym import protoschema, valconv
 
-EVID = os.path.join(VERIF, 'evidence')
+EVID = os.path.join(CACHE, 'evidence') if (ALT or os.environ.get('VERIF_ONLY')) else os.path.join(VERIF, 'evidence')     # development runs never touch /verif/evidence
 KNOWN = os.path.join(VERIF, 'known_findings.json')
 
 
@@ -29,7 +29,16 @@ class Replay:
         args = ['cargo', 'build', '--offline', '--quiet']
         if self.profile == 'release':
             args.append('--release')
-        p = subprocess.run(args, cwd=os.path.join(VERIF, 'replay'), env=env, stdout=subprocess.PIPE,
+        src = os.path.join(VERIF, 'replay')
+        if ALT:
+            # a copy of the replay crate whose path dependency points at the other checkout
+            import shutil
+            src = os.path.join(CACHE, 'replay-src')
+            shutil.rmtree(src, ignore_errors=True)
+            shutil.copytree(os.path.join(VERIF, 'replay'), src)
+            ct = open(os.path.join(src, 'Cargo.toml')).read().replace('"/repo/rust/ommx"', f'"{REPO}/rust/ommx"')
+            open(os.path.join(src, 'Cargo.toml'), 'w').write(ct)
+        p = subprocess.run(args, cwd=src, env=env, stdout=subprocess.PIPE,
                            stderr=subprocess.PIPE, text=True)
         if p.returncode != 0:
             raise Inconclusive('replay build failed:\n' + p.stderr[-3000:])
